@@ -1,7 +1,10 @@
 #!/usr/bin/env python3
 """Prints the prompt for a seeding sub-agent: property text + worktree only."""
-import json, sys
+import json, os, sys
 pid, wt = sys.argv[1], sys.argv[2]
+N = int(os.environ.get('SEEDS', '2'))
+WORD = {2: 'TWO', 3: 'THREE', 4: 'FOUR'}[N]
+NS = ', '.join(str(i) for i in range(1, N + 1))
 p = [json.loads(l) for l in open('/verif/properties.jsonl') if l.strip()]
 p = [x for x in p if x['id'] == pid][0]
 print(f"""You are given a scratch git worktree of the Go repository markkurossi/mpc at {wt} (a toolchain for secure two-party computation: MPCL compiler, garbled circuits, OT, p2p). Work ONLY inside {wt}; do not look at or touch /repo or /verif. No network. For every go command use: export GOFLAGS=-mod=mod GOPROXY=off (nothing else; do not set GOTOOLCHAIN or GOSUMDB).
@@ -13,12 +16,12 @@ Here is a semantic property the code is supposed to satisfy:
   Quantified over: {p['quantifier']['text']}
   Relevant files: {', '.join(p['anchors']['files'])}
 
-Task: produce TWO different, realistic code changes (bugs a developer could plausibly introduce: an off-by-one at a boundary, a dropped guard, a swapped field, a missing step for one case, two cooperating edits that each look fine alone) to the non-test source files, each of which BREAKS this property while
+Task: produce {WORD} different, realistic code changes (bugs a developer could plausibly introduce: an off-by-one at a boundary, a dropped guard, a swapped field, a missing step for one case, two cooperating edits that each look fine alone) to the non-test source files, each of which BREAKS this property while
   (1) the repository still compiles (go build ./... and go vet-free test compilation: go test -count=1 -run '^$' ./...),
   (2) the existing test suite still passes: go test -vet=off -count=1 ./...  (note: the root package test mpc::TestSuite fails on the UNCHANGED tree already because two data files are empty in this sandbox — ignore that one test; everything else must pass; running the packages you touched plus their dependents is enough if the full run is slow), and
-  (3) the breakage needs something SPECIFIC to manifest — a particular input shape or size, a particular width, a specific sequence of operations, a particular interleaving, a fault at a particular point — not something ordinary use would expose at once. Prefer subtle over blatant. The two changes must have different root causes / sites.
+  (3) the breakage needs something SPECIFIC to manifest — a particular input shape or size, a particular width, a specific sequence of operations, a particular interleaving, a fault at a particular point — not something ordinary use would expose at once. Prefer subtle over blatant. The changes must all have different root causes / sites.
 
-For each change deliver, under {wt}/seed/<n>/ (n = 1, 2):
+For each change deliver, under {wt}/seed/<n>/ (n = {NS}):
   - patch.diff : `git diff` of the change against the worktree's HEAD (source files only, applies with `git apply`),
   - demo_test.go (or demo/main.go) : a demonstration that FAILS with the change applied and PASSES without it (say in a comment at the top where to place it and how to run it, e.g. "copy to {wt}/circuit/demo_test.go and run go test -run TestDemo ./circuit/"),
   - notes.md : what the change does, why the existing tests do not notice, what exactly is needed to make it manifest.
